@@ -40,6 +40,18 @@ CHECKS = {
     "C18": dict(text="(i) in every explored orchestration run (fresh, restart, 1-2 iterations) the pairs of hess_inv are differences of a chronological chain of visited iterates and of the oracle gradients there, at most maxcor, s.y > 0; (ii) real extract_hess_inv_diag on SciPy's LbfgsInvHessProduct source equals diag(todense()) and the inverse-BFGS recursion for symbolic pairs (identity of normal forms).",
                 note='Trusted: symx shim, the kernel contracts used as stubs (direction in the box and descent [C08/C09], line search returns None or an evaluated strictly better trial within its budget [C11]), z3. Decided modulo those contracts; scenarios of all counterexamples are replayed on the real public API over a battery of concrete problems.',
                 tech='DSE; existence of a provenance chain decided by z3; normal-form identities for the diagonal utility', ref='DESIGN.md C18'),
+    "C13": dict(text='Relational bounded model checking with an update-function oracle: (i) an identity update leaves result, callback states and evaluation points identical for symbolic ftol/ftarget; (ii) a switch to a second uninterpreted objective with rewritten gradients at update call 0..2: result pairs are differences of the rewritten gradients at visited points (chain decided by z3), satisfy the curvature condition, and the state handed to the next direction computation equals that of a restart on the new objective from the rewritten, filtered history.',
+                note='Trusted: symx shim, the kernel contracts used as functional stubs [C08/C09/C11], z3. Decided modulo those contracts with n=1; scenarios of all counterexamples are replayed on the real public API over a battery of concrete problems.',
+                tech='relational DSE with update-function oracle; z3 equality of terms / provenance chain; scenario replay (objective switches incl. negated objective)', ref='DESIGN.md C13'),
+    "C14": dict(text='Relational bounded model checking in one module namespace: repeated call with another problem between, a complete other run nested inside an objective call at a symbolic index, read-only x0/bounds/checkpoint arrays accepted and unchanged, two restarts from one checkpoint object (with and without scaler) equal, logging (iprint levels, recording logger) without numerical influence, no module-level state changed.',
+                note='Trusted: symx shim, the kernel contracts used as functional stubs [C08/C09/C11], z3. Decided modulo those contracts with n=1; scenarios of all counterexamples are replayed on the real public API over a battery of concrete problems.',
+                tech='relational DSE with mutation-faithful arrays and read-only flags; z3 equality of terms; scenario replay', ref='DESIGN.md C14'),
+    "C17": dict(text='Relational bounded model checking: scaler oracle returning symbolic s in [1e-3,1e3] vs the run on s*f, s*grad f: equal results, evaluation points and callback states, scaler invoked once with the start point and its unscaled gradient, target tested on the unscaled value; plus the packaged unit scaler against 1/max|x-clip(x-g)| for all real inputs (n<=2).',
+                note='Trusted: symx shim, the kernel contracts used as functional stubs [C08/C09/C11], z3. Decided modulo those contracts with n=1; scenarios of all counterexamples are replayed on the real public API over a battery of concrete problems.',
+                tech='relational DSE; z3 equality of terms; scenario replay', ref='DESIGN.md C17'),
+    "C20": dict(text='Fault-injecting bounded model checking: each of the seven kinds of user callable raises at a symbolic call index an exception of a symbolic type (the types the package catches plus controls); the very exception object must escape minimize_lbfgsb and a fault-free call afterwards must equal the one before; no module-level state changes.',
+                note='Trusted: symx shim, the kernel contracts used as functional stubs [C08/C09/C11], z3. Decided modulo those contracts with n=1; scenarios of all counterexamples are replayed on the real public API over a battery of concrete problems.',
+                tech='fault-injecting DSE (symbolic call index and exception type); scenario replay of every kind x type x index on the real API', ref='DESIGN.md C20'),
 }
 
 
